@@ -41,6 +41,12 @@ def plan(tier, seed):
             d = 7 if i % 2 == 0 else 8
             lazy.append({'signature': gen.random_sig(rng, d)} if i % 4 else gen.random_custom_cfg(rng, 7))
         nshards = 64
+    # graded mode: basis blades are one-hot multivectors over a complete grade
+    gr = [{'p': 3, 'q': 0, 'r': 1}, {'p': 4, 'q': 0, 'r': 0}, {'p': 2, 'q': 2, 'r': 0}, {'named': '2DPGA'}, {'named': '3DPGA'}, {'p': 3, 'q': 1, 'r': 1}, {'p': 2, 'q': 0, 'r': 1}]
+    gr += [gen.random_custom_cfg(rng, rng.choice((3, 4))) for _ in range(6 if tier == 'quick' else 60)]
+    if tier != 'quick':
+        gr += gen.pqr_all(4, 5)
+    cfgs += [dict(c, opts={'graded': True}) for c in gr]
     rng.shuffle(cfgs)
     shards = [{'cfgs': part, 'lazy': []} for part in gen.split(cfgs, nshards)]
     for i, c in enumerate(lazy):
@@ -131,6 +137,8 @@ def check_config(cfg, ctx, lazy):
     if alg is None:
         return
     ctx.count('algebras')
+    if cfg.get('opts', {}).get('graded'):
+        ctx.count('graded_mode_algebras')
     d = alg.d
     iso = Iso(alg)
     keys = list(alg.canon2bin.values())
